@@ -1146,7 +1146,47 @@ impl<Tr: ?Sized + TrOps, M: BackOps> World<Tr, M> {
                         std::ptr::write(p, lib!(AnyVec::<Tr, M>::new::<T>()));
                         let base = lib!((*p).as_bytes()).as_ptr() as usize;
                         worst = worst.max(base % T::ALIGN);
-                        lib!(std::ptr::drop_in_place(p));
+                        // byte-level coherence of the views at this placement and across a MOVE of the (non-empty)
+                        // vector object to the next placement - only type-erased byte operations are used, so this is
+                        // well defined also where the storage of an over-aligned element type is misaligned (D7):
+                        //   as_bytes shows exactly the bytes that were pushed; a write through as_bytes_mut is seen by
+                        //   as_bytes and by the element handles; moving the vector changes none of it.
+                        let room = lib!((*p).capacity()) >= 2 || M::RESIZABLE;
+                        if T::SIZE > 0 && room && off + va < 128 {
+                            let sz = std::mem::size_of::<T>();
+                            // two byte patterns stand in for values: they are only ever copied, compared and forgotten
+                            // (`set_len(0)` below), never interpreted as `T`, so no user code runs
+                            let mut b0: Vec<u8> = (0..sz).map(|k| 0x40u8.wrapping_add(k as u8)).collect();
+                            let mut b1: Vec<u8> = (0..sz).map(|k| 0xC0u8.wrapping_sub(k as u8)).collect();
+                            lib!((*p).push(AnyValueRaw::new(NonNull::new(b0.as_mut_ptr()).unwrap(), sz, TypeId::of::<T>())));
+                            lib!((*p).push(AnyValueRaw::new(NonNull::new(b1.as_mut_ptr()).unwrap(), sz, TypeId::of::<T>())));
+                            let mut want = b0.clone(); want.extend_from_slice(&b1);
+                            if lib!((*p).as_bytes()) != &want[..] {
+                                with_reg(|r| r.violations.push(format!("as_bytes-differs-from-what-was-pushed-at-offset-{}", off)));
+                            }
+                            {   // exchange the two elements through the mutable byte view
+                                let bm = lib!((*p).as_bytes_mut());
+                                if bm.len() == 2 * sz { let (l, r) = bm.split_at_mut(sz); l.swap_with_slice(r); }
+                            }
+                            let mut want2 = b1.clone(); want2.extend_from_slice(&b0);
+                            if lib!((*p).as_bytes()) != &want2[..] {
+                                with_reg(|r| r.violations.push(format!("write-through-as_bytes_mut-not-seen-by-as_bytes-at-offset-{}", off)));
+                            }
+                            if lib!((*p).at(0).as_bytes()) != &b1[..] || lib!((*p).get(1).unwrap().as_bytes()) != &b0[..] {
+                                with_reg(|r| r.violations.push(format!("element-handles-do-not-address-the-written-bytes-at-offset-{}", off)));
+                            }
+                            // the vector object moves (a Rust move is a bitwise copy) to the next placement
+                            let q = buf.add(off + va) as *mut V<Tr, M>;
+                            std::ptr::copy(p, q, 1);       // the two placements overlap
+                            if lib!((*q).as_bytes()) != &want2[..] {
+                                with_reg(|r| r.violations.push(format!("as_bytes-changed-by-moving-the-vector-from-offset-{}-to-{}", off, off + va)));
+                            }
+                            // the two values are still owned by this frame: the vector forgets them
+                            lib!((*q).set_len(0));
+                            lib!(std::ptr::drop_in_place(q));
+                        } else {
+                            lib!(std::ptr::drop_in_place(p));
+                        }
                     }
                     off += va;
                 }
@@ -1275,9 +1315,12 @@ impl<Tr: ?Sized + TrOps, M: BackOps> World<Tr, M> {
                     lens.push(v.len().to_string());
                     caps.push(v.capacity().to_string());
                     let tv = v.downcast_ref::<T>().expect("vector lost its element type");
-                    let s: Vec<String> = tv.as_slice().iter().map(|e| {
+                    // an empty vector has nothing to show: no typed slice is formed (on the inline stack buffers the
+                    // storage of an over-aligned element type is misaligned - known finding D7 - and even an empty
+                    // `&[T]` over it is rejected by the debug checks of `slice::from_raw_parts`)
+                    let s: Vec<String> = if v.len() == 0 { Vec::new() } else { tv.as_slice().iter().map(|e| {
                         if e.intact() { e.token().to_string() } else { format!("{}~", e.token()) }
-                    }).collect();
+                    }).collect() };
                     snaps.push(format!("[{}]", s.join(",")));
                 }
             }
@@ -1295,6 +1338,10 @@ impl<Tr: ?Sized + TrOps, M: BackOps> World<Tr, M> {
                         continue;
                     }
                     let base = v.downcast_ref::<T>().unwrap().as_ptr() as *const u8;
+                    if (base as usize) % std::mem::align_of::<T>() != 0 {
+                        raws.push("-".to_string());      // misaligned storage (D7): slots are not read as `T`
+                        continue;
+                    }
                     let mut s = Vec::new();
                     for j in 0..cap {
                         let bytes = unsafe { std::slice::from_raw_parts(base.add(j * T::SIZE), T::SIZE) };
@@ -1314,6 +1361,7 @@ impl<Tr: ?Sized + TrOps, M: BackOps> World<Tr, M> {
         if T::SIZE > 0 {
             let mut seen = std::collections::HashSet::new();
             for v in self.vecs.iter().flatten() {
+                if v.len() == 0 { continue; }        // nothing visible; no typed slice over (possibly misaligned, D7) empty storage
                 let tv = v.downcast_ref::<T>().unwrap();
                 for e in tv.as_slice() {
                     let t = e.token();
